@@ -278,7 +278,7 @@ def _companions(table: dict) -> dict[str, list[str]]:
 
 
 def make_cases(seed: int, tier: str, n_cases: int | None = None) -> list[dict]:
-    n = n_cases or (32 if tier == "quick" else 600)
+    n = n_cases or (32 if tier == "quick" else 500)
     cases = []
     styles = ["NUMPYDOC", "GOOGLE", "REST", "PLAINTEXT"]
     for idx in range(n):
